@@ -84,11 +84,11 @@ func (st *State) intrinsic(g *G, fr *Frame, name string, fn *ssa.Function, args 
 		return nil, false
 	case "Assert":
 		id := constStr(args[1])
-		st.check(args[0].(*Term), "assert", id, "assertion "+id, pos)
+		st.softCheck(args[0].(*Term), id, "assertion "+id, pos)
 		return nil, false
 	case "Fail":
 		id := constStr(args[0])
-		st.check(False, "assert", id, "reached Fail("+id+")", pos)
+		st.softCheck(False, id, "reached Fail("+id+")", pos)
 		return nil, false
 	case "Cover":
 		st.eng.Res.Covers[constStr(args[0])]++
@@ -229,6 +229,95 @@ func (st *State) intrinsic(g *G, fr *Frame, name string, fn *ssa.Function, args 
 			}
 		}
 		return Str("<none>"), false
+	case "Fact":
+		// Fact(tag, a, b, c): records a concrete fact (aggregated over all paths)
+		key := constStr(args[0])
+		for _, a := range args[1:] {
+			t := a.(*Term)
+			if t.Sort.K == KStr {
+				if t.Const {
+					key += ":" + t.Str
+				} else {
+					key += ":?"
+				}
+				continue
+			}
+			v := st.concretize(t, 64)
+			key += fmt.Sprintf(":%d", signed(t.Sort.W, v))
+		}
+		st.eng.Res.Facts[key]++
+		return nil, false
+	case "JSONStr", "JSONState":
+		// JSONStr: string at `path` of the most recent stubbed json.Unmarshal result of type `typ`.
+		// JSONState: 0 = no such parse result, 1 = nil pointer / nil raw message, 2 = present.
+		typ, path := constStr(args[0]), constStr(args[1])
+		wantState := base == "JSONState"
+		for i := len(st.jsonCalls) - 1; i >= 0; i-- {
+			jc := st.jsonCalls[i]
+			tn := typeStr(jc.T)
+			if k := strings.LastIndex(tn, "."); k >= 0 {
+				tn = tn[k+1:]
+			}
+			if tn != typ || jc.Val == nil {
+				continue
+			}
+			v := fieldByPath(jc.T, jc.Val, path)
+			switch x := v.(type) {
+			case *Term:
+				if x.Sort.K == KStr {
+					if wantState {
+						return BV(64, 2), false
+					}
+					return x, false
+				}
+			case BytesVal:
+				if wantState {
+					return Ite(x.IsNil, BV(64, 1), BV(64, 2)), false
+				}
+				return x.S, false
+			case PtrVal:
+				if x.L != nil {
+					if t, ok := st.load(x.L).(*Term); ok && t.Sort.K == KStr {
+						if wantState {
+							return Ite(x.IsNil, BV(64, 1), BV(64, 2)), false
+						}
+						return t, false
+					}
+				}
+			}
+		}
+		if wantState {
+			return BV(64, 0), false
+		}
+		return Str(""), false
+	case "FieldStr", "FieldInt", "FieldBool":
+		// reads an (unexported) field of the struct a pointer / interface points to
+		var v Val = args[0]
+		if iv, ok := v.(IfaceVal); ok {
+			v = iv.V
+		}
+		p, ok := v.(PtrVal)
+		if !ok || p.L == nil {
+			st.fail("engine-error", "FieldStr: not a pointer")
+		}
+		stt, ok := p.L.T.Underlying().(*types.Struct)
+		if !ok {
+			st.fail("engine-error", "FieldStr: not a struct")
+		}
+		fname := constStr(args[1])
+		for i := 0; i < stt.NumFields(); i++ {
+			if stt.Field(i).Name() == fname {
+				fv := st.load(p.L.Elems[i])
+				if t, ok := fv.(*Term); ok {
+					if base == "FieldInt" && t.Sort.K == KBV {
+						return Resize(t, 64, isSigned(stt.Field(i).Type())), false
+					}
+					return t, false
+				}
+			}
+		}
+		st.fail("engine-error", "FieldStr: no scalar field "+fname)
+		return nil, false
 	case "StartAccessLog":
 		st.logAccess = true
 		return nil, false
